@@ -10,6 +10,7 @@ QUICK = [
                        "buslost=1", "win=03"]),
     ("enh-restart-werr", ["enhanced=1", "req=3:3115b5090100:2", "submit=1", "qq=", "nn=0", "snn=0", "echofaults=0", "writeerr=1", "win=03", "longtoany=1",
                           "buslost=1"]),
+    ("reconnect", ["req=0:3115b5090100", "submit=1", "qq=", "nn=0", "snn=0", "echofaults=0", "readerr=1", "openfail=1", "reconnect=1", "win=03"]),
     ("restart", ["req=2:3115b5090100:2", "submit=1", "qq=", "nn=0", "snn=0", "echofaults=0", "win=03", "buslost=1", "longtoany=1"]),
 ]
 THOROUGH = QUICK + [
@@ -80,7 +81,7 @@ def run_mode(ctx):
         total_events += info["events"]
         cf = "%s/cfg-run.json" % wd
         with open(cf, "w") as f:
-            json.dump(pc.cfg_json(args), f)
+            json.dump(dict(pc.cfg_json(args), runmode=1), f)
         stats, found = graph.check(ctx, "ProtoGraph", "ProtoGraph.cfg", gf, env={"VF_MON": "qu", "VF_CFG": cf}, tag="C04-run%d" % k,
                                    workers=2, heap="4g")
         for sig, toks in found:
